@@ -20,7 +20,7 @@ RX = (39.0, -77.0)
 def quadrant_flights(rng, n):
     fl = []
     for i in range(n):
-        f = gentrack.Flight(rng, 0xA20000 + 0x1357 * i + rng.below(0x80), RX, df=18 if i % 4 == 3 else 17)
+        f = gentrack.Flight(rng, 0xA20000 + 0x1357 * i + rng.below(0x80), RX, df=18 if i % 4 == 3 else 17, plain=True)
         sy, sx = [(1, 1), (1, -1), (-1, 1), (-1, -1)][i % 4]
         f.lat = Fr(RX[0]) + sy * Fr(150 + rng.below(450), 1000); f.lon = Fr(RX[1]) + sx * Fr(150 + rng.below(650), 1000)
         f.callsign = "Q%s%d" % ("NE NW SE SW".split()[i % 4], i)
@@ -275,6 +275,37 @@ def check_map(rng, tier, report):
             report("map/view-%d" % step, not diffs and r.poll() is None, {"differences": diffs, "events": [t for t, _ in batch], "view": v["raw"], "cells": seen})
     finally:
         r.send(b"q"); r.wait_exit(3.0); r.kill(); f.stop()
+
+def check_map_sites(rng, tier, report):
+    """the same conventions at other receiver sites - far north and far south, where the Mercator scale grows quickly: the receiver in the
+    middle, places to the north above it and to the south below it on *different* rows, east right, west left, each label where the model's
+    projection (evaluated for that site) puts it"""
+    rows, cols = 50, 160
+    geom = canvas_geom(rows, cols)
+    locs = [("RXC", 0.0, 0.0), ("NN1", 0.1, 0.0), ("NN2", 0.2, 0.0), ("SS1", -0.1, 0.0), ("SS2", -0.2, 0.0), ("EE1", 0.0, 3.0), ("WW1", 0.0, -3.0)]
+    for rx in ([(86.0, 10.0), (-86.0, 151.0)] if tier == "quick" else [(86.0, 10.0), (-86.0, 151.0), (70.0, 25.0), (88.5, -120.0), (-60.0, -45.0)]):
+        args = ["--locations"] + ["(%s,%.3f,%.3f)" % (n, rx[0] + a, rx[1] + b) for n, a, b in locs]
+        pts = [(n, (rx[0] + a, rx[1] + b)) for n, a, b in locs]
+        f = Feed(); f.run([("accept",), ("sleep", 600)])
+        r = Radar(f.port, args=args, rows=rows, cols=cols, latlon=rx)
+        try:
+            r.pump(1.0)
+            view = {"zoom": 0, "lat0": rx[0], "lon0": rx[1]}
+            diffs, seen = placement_diffs(r.screen.text(), pts, view, geom)
+            conv = []
+            c = seen.get("RXC")
+            if c:
+                for n, rel in (("NN1", "above"), ("NN2", "above"), ("SS1", "below"), ("SS2", "below"), ("EE1", "right"), ("WW1", "left")):
+                    p = seen.get(n)
+                    if not p: continue
+                    good = {"above": p[0] < c[0], "below": p[0] > c[0], "right": p[1] > c[1], "left": p[1] < c[1]}[rel]
+                    if not good: conv.append("%s at %s is not %s the receiver at %s" % (n, p, rel, c))
+                if seen.get("NN1") and seen.get("NN2") and not seen["NN2"][0] < seen["NN1"][0]: conv.append("NN2 is not above NN1")
+                if seen.get("SS1") and seen.get("SS2") and not seen["SS2"][0] > seen["SS1"][0]: conv.append("SS2 is not below SS1")
+            else: conv.append("receiver label not drawn")
+            report("map/site-%s,%s" % rx, not diffs and not conv and r.poll() is None, {"differences": diffs, "conventions": conv, "cells": seen, "receiver": rx})
+        finally:
+            r.send(b"q"); r.wait_exit(3.0); r.kill(); f.stop()
 
 def check_map_aircraft(rng, tier, report):
     """aircraft in the four quadrants: each label sits where its *tracked* position projects (20 units above the dot)"""
